@@ -25,7 +25,7 @@ META = {
     "ready": True,
     "level": "model_checking",
     "technique": "TLA+ traversal model (Closure under all interleavings) checked by TLC; every enumerated request graph replayed as a real link and random larger graphs validated as observations by a TLA+ reachability module",
-    "level_text": "All 512 digraphs on 3 work items (cycles, self-loops, edges into the delayed synthetic group) are model-checked for Closure under every interleaving and each is replayed as a real multi-object link whose kept sections must contain the model's kept set; larger seeded graphs (functions, data pointers, start/stop sections, GC on/off, threads, one file per group) are observed and KeepsReachable is evaluated on them by TLC.",
+    "level_text": "All 512 digraphs on 3 work items (cycles, self-loops, edges into the delayed synthetic group) are model-checked for Closure under every interleaving and each is replayed as a real multi-object link whose kept sections must contain the model's kept set; larger seeded graphs (functions, data pointers, dependency-only relocations, C-identifier-named section sets referenced through __start_X, __stop_X or both - the rule that either keeps every member is stated in GcObs.tla -, GC on/off, threads, one file per group) are observed and KeepsReachable is evaluated on them by TLC.",
     "level_note": "Kept sections are detected by unique marker bytes in the output file; roots exercised: entry symbol, references via named symbols, data pointers, __start_/__stop_ sections. Exported-symbol, KEEP and init-array roots are covered by other checks' scenarios only.",
     "engine": "tlc",
 }
@@ -106,23 +106,36 @@ def random_part(ctx, cov, d):
         env = {"WILD_FILES_PER_GROUP": str(rng.choice([1, 2, 64])), "WILD_VERIF_YIELD_SEED": str(rng.getrandbits(30))}
         r = run_wild(args, env=env, timeout=60)
         if r.rc != 0:
-            raise ToolError(f"random graph link failed: {r}")
+            # the generated program is valid by construction: GNU ld must agree, then wild's failure contradicts C05's
+            # premise-free reading (a reachable section - here the one a boundary symbol refers to - was dropped or the
+            # traversal failed) and is reported; if GNU ld rejects the inputs too, the generator is at fault
+            g = asm.gnu_ld([str(o) for o in objs] + ["-o", str(sub / "out.ld")] + (["--gc-sections"] if gc else []))
+            if g.rc != 0:
+                raise ToolError(f"random graph link failed in wild AND GNU ld (generator bug?): {r} / {g}")
+            ctx.verdict.report(f"valid-link-{r.klass()}",
+                               f"a valid generated program (GNU ld links it) fails in wild with gc={gc} threads={threads}: {r.err[-300:]}",
+                               lambda sub=sub, args=args, env=env: save_replay(PROP, f"link-fails-{k}", sub, meta={"args": args, "env": env, "stderr": r.err[-2000:]}))
+            continue
         nodes = sorted(asm.gc_all_nodes(scn))
         idx = {nm: i + 1 for i, nm in enumerate(nodes)}
         edges = []
         for f in scn["funcs"]:
             for g in scn["edges"][f] + scn["data_edges"].get(f, []):
                 edges.append([idx[f], idx[g]])
-            for sname, s in scn["sets"].items():
-                if f in s["referenced_by"]:
-                    edges += [[idx[f], idx[f"{sname}@{o}"]] for o in s["members"]]
         for dn, dd in scn["datas"].items():
             edges += [[idx[dn], idx[g]] for g in dd["points_to"]]
         for sname, s in scn["sets"].items():
             for o in s["members"]:
                 edges += [[idx[f"{sname}@{o}"], idx[g]] for g in s["member_points_to"][o]]
+        # references to the boundary symbols of a C-identifier-named section set: the RULE (either symbol keeps every
+        # section of that name, in every file) is stated in GcObs.tla, the harness only reports who references what
+        snames = sorted(scn["sets"])
+        setrefs = [[idx[f], si + 1, asm.set_ref_mode(f, sname)] for si, sname in enumerate(snames)
+                   for f in scn["funcs"] if f in scn["sets"][sname]["referenced_by"]]
+        setmembers = [[si + 1, idx[f"{sname}@{o}"]] for si, sname in enumerate(snames) for o in scn["sets"][sname]["members"]]
         kept = sorted(idx[x] for x in asm.kept_nodes(sub / "out", scn))
-        obs.append({"id": k, "n": len(nodes), "edges": edges, "roots": [idx[scn["entry"]]], "kept": kept, "gc": gc, "mustkeep": []})
+        obs.append({"id": k, "n": len(nodes), "edges": edges, "setrefs": setrefs, "setmembers": setmembers,
+                    "roots": [idx[scn["entry"]]], "kept": kept, "gc": gc, "mustkeep": []})
         metas.append((sub, args, env, nodes))
     # binding demonstration: drop a reachable node from a copy of an observation -> TLC must flag it
     src = next((o for o in obs if o["gc"] and len(o["kept"]) > 1), obs[0])
